@@ -120,6 +120,26 @@ HEADER_FIELD = {"version": "version", "zoomLevels": "zoom_levels", "chromosomeTr
                 "totalSummaryOffset": "total_summary_offset", "uncompressBufSize": "uncompress_buf_size"}
 
 
+def _rebound(fn, lit, st, names):
+    """a decoded name (bound by the tuple `let` st) that is bound AGAIN before the struct literal `lit` uses it, other than as a plain alias or cast of
+    itself: (field, name, text of the re-binding) or None.  A rule that compares names must not take the later binding for the decoded value."""
+    if st is None or lit is None:
+        return None
+    for x in lit["fields"]:
+        e = strip(x["e"]) if x.get("e") is not None else None
+        if e is None or e.k != "path" or e["path"] not in names:
+            continue
+        b = binding_before(fn, e["path"], e)
+        if b is None or b[0] != "let" or b[1] is st:
+            continue
+        init = b[1].get("init")
+        t = up(strip_cast(strip(init))) if init is not None else "?"
+        if t == e["path"] and binding_before(fn, e["path"], init) is not None and binding_before(fn, e["path"], init)[1] is st:
+            continue            # `let x = x;` / `let x = x as u32;`
+        return (x["name"], e["path"], up(b[1])[:90])
+    return None
+
+
 def _arm_tail_expr(arm):
     b = arm["body"]
     if b.k == "block":
@@ -499,6 +519,10 @@ def ob_read_chrom_tree_block(ctx, res):
                     if fld.get("id") != names[0] or fld.get("length") != names[1]:
                         res.fail("chromLeaf/flow", lits[0], "ChromInfo.id must be the first u32 and ChromInfo.length the second (got id=%s, length=%s from %s)" % (fld.get("id"), fld.get("length"), names))
                         ok = False
+                    rb = _rebound(fn, lits[0], st, names)
+                    if rb:
+                        res.fail("chromLeaf/rebound", lits[0], "ChromInfo.%s takes `%s`, which is bound again after decoding (`%s`): the decoded value must reach the field unchanged" % rb)
+                        ok = False
                     if adv and not dominates(adv[0].node, m):
                         res.fail("chromLeaf/order", m, "id/size must be read after the key")
                         ok = False
@@ -672,6 +696,10 @@ def _items_iter(ctx, res, iter_ty, alloc_fn, spec, struct_name, fieldmap, what):
         if fld.get(fieldmap[fname]) != nm:
             res.fail("%s/%s/flow" % (what, fname), sl[0], "%s.%s must receive slot %s" % (struct_name, fieldmap[fname], fname))
             return
+    rb = _rebound(nxt, sl[0], st, names)
+    if rb:
+        res.fail("%s/rebound" % what, sl[0], "%s.%s takes `%s`, which is bound again after decoding (`%s`): the decoded value must reach the field unchanged" % ((struct_name,) + rb))
+        return
     res.ok(nxt, "%s: stride %d, fields at ascending byte ranges, both byte orders, -> %s fields" % (what, size, struct_name))
     _items_alloc(ctx, res, alloc_fn, size, what)
 
@@ -827,8 +855,12 @@ def ob_wig_block_r(ctx, res):
         vnames1 = [up(e) for e in st1["pat"]["elems"]] if st1 is not None and st1.k == "let" and st1["pat"].k == "p_tuple" else None
     if ok1 and vnames1:
         v = _value_literal(a1["body"])
+        vl1 = [n for n in walk_no_nested_fn(a1["body"]) if n.k == "struct" and n["path"].split("::")[-1] == "Value"]
+        rb = _rebound(fn, vl1[0], st1, vnames1) if len(vl1) == 1 else None
         if v is None or [v.get("start"), v.get("end"), v.get("value")] != vnames1:
             res.fail("wigItem1/value", a1, "Value{start,end,value} must be built from the decoded (start,end,value)")
+        elif rb:
+            res.fail("wigItem1/rebound", vl1[0], "Value.%s takes `%s`, which is bound again after decoding (`%s`): the decoded value must reach the field unchanged" % rb)
         else:
             res.ok(a1, "type 1 (bedGraph): stride 12; u32 start,u32 end,f32 value; both byte orders")
     # type 2
@@ -961,6 +993,10 @@ def ob_bed_block_r(ctx, res):
     fld = {x["name"]: up(strip(x["e"])) for x in lits[0]["fields"]}
     if fld.get("start") != names[1] or fld.get("end") != names[2]:
         res.fail("bedRecordR/flow", lits[0], "BedEntry.start/end must be the 2nd/3rd u32 of the record")
+        return
+    rb = _rebound(fn, lits[0], st, names)
+    if rb:
+        res.fail("bedRecordR/rebound", lits[0], "BedEntry.%s takes `%s`, which is bound again after decoding (`%s`): the decoded value must reach the field unchanged" % rb)
         return
     # minimum length guard 12
     g = []
